@@ -172,9 +172,6 @@ def check(run, mod, args):
 			run.machinery_errors.append(f'vacuity guard failed: {r.name}: {r.detail}')
 			continue
 		k = is_known('obligation', r.name, '')
-		if k is not None:
-			run.known_hits.append((k, r.name))
-			continue
 		rep = None
 		model = None
 		try:
@@ -190,6 +187,12 @@ def check(run, mod, args):
 		path = scratch / f'{pid}_{abs(hash(r.name)) % 10**8}.json'
 		payload = {'property': pid, 'obligation': r.name, 'repo': args.repo,
 		           'solver_output': ('sat; model:\n' + str(model)[:6000]) if model is not None else 'sat (no model extracted)'}
+		if k is not None:
+			# a listed finding: it must still be THE listed one (same obligation and, where the entry names a
+			# witness class, a replayed witness of that class); anything else is reported as a violation
+			if not k.get('class') or (rep and rep.get('reproduced') and rep.get('class') == k['class']):
+				run.known_hits.append((k, r.name))
+				continue
 		if rep and rep.get('reproduced'):
 			payload.update({'case': rep['case'], 'expected': rep.get('expected'), 'actual': rep.get('actual'), 'how': rep.get('how', 'model')})
 			path.write_text(json.dumps(payload, indent=1, default=str))
